@@ -520,6 +520,28 @@ impl VisitMut for Rw {
         if let Expr::Block(i) = e {
             i.attrs.retain(|a| !a.path().is_ident("cfg"));
         }
+        // R2: a projected (non-deref'd) field used as a call argument is the `&mut T` the projection yields
+        {
+            let proj = self.proj.clone();
+            let fix = |args: &mut Punctuated<Expr, Token![,]>, log: &mut Vec<String>| {
+                for a in args.iter_mut() {
+                    if let Expr::Path(p) = a {
+                        if let Some(i) = p.path.get_ident() {
+                            if proj.contains(&i.to_string()) {
+                                let id = i.clone();
+                                *a = parse_quote!(&mut self.#id);
+                                log.push("R2 projected field as argument -> &mut self.field".into());
+                            }
+                        }
+                    }
+                }
+            };
+            match e {
+                Expr::Call(c) => fix(&mut c.args, &mut self.log),
+                Expr::MethodCall(m) => fix(&mut m.args, &mut self.log),
+                _ => {}
+            }
+        }
         match e {
             Expr::While(w) => {
                 self.loop_counter += 1;
@@ -579,7 +601,8 @@ impl VisitMut for Rw {
                     let id = if let Expr::Path(p) = &*m.receiver { p.path.get_ident().unwrap().to_string() } else { unreachable!() };
                     let recv = self.drains.iter().find(|(n, _)| *n == id).unwrap().1.clone();
                     Some(parse_quote!(vx_vec_take_all(&mut #recv)))
-                } else if name == "and_then" && m.args.len() == 1 && matches!(&m.args[0], Expr::Closure(c) if c.inputs.len() == 1) {
+                } else if name == "and_then" && m.args.len() == 1 && matches!(&m.args[0], Expr::Closure(c) if c.inputs.len() == 1)
+                    && matches!(&*m.receiver, Expr::MethodCall(r) if r.method == "as_mut" || r.method == "as_ref" || r.method == "take") {
                     // R21: Option::and_then(|x| E) -> match (its definition); the closure form is opaque to the proof
                     let c = if let Expr::Closure(c) = &m.args[0] { c.clone() } else { unreachable!() };
                     let pat = c.inputs[0].clone();
